@@ -5,7 +5,7 @@ evaluating the Coq model (as in C01) on the restricted runs of the element-wise 
 import json
 from fractions import Fraction
 import numpy
-import lib, ops, elem, c01
+import lib, ops, elem, c01, progs, c05
 from lib import Report
 
 RTOL = 1e-12
@@ -50,7 +50,7 @@ def run(pid, mode, tier, seed, families=None):
                        'the implementation is tied to the proved model by evaluating Series.v on the restricted runs of element-wise ops']
     rep.theorems()
     rng = lib.rng_for(seed, pid)
-    names = [n for n, o in sorted(ops.OPS.items()) if families is None or o.family in families]
+    names = [n for n, o in sorted(ops.ops_for(pid).items()) if families is None or o.family in families]
     per_op = 4 if tier == 'quick' else 40
     Dmax = 6 if tier == 'quick' else 9
     sub_cases = []
@@ -89,6 +89,7 @@ def run(pid, mode, tier, seed, families=None):
                 sub_in = restrict(inputs, mode, k)[0]
                 sub_cases.append(dict(fn=nm[5:], prm=case['prm'], D=int(sub_in.shape[0]), P=int(sub_in.shape[1]), shape=list(sub_in.shape[2:]),
                                       pattern='restricted', route=case['route'], data=sub_in.tolist()))
+    program_section(rep, algopy, rng, mode, tier, what)
     # Coq model on the restricted runs (same machinery as C01, but reported under this property)
     all_terms, owners = [], []
     for sc in sub_cases:
@@ -111,10 +112,94 @@ def run(pid, mode, tier, seed, families=None):
     return rep.finish()
 
 
+def cut(a, mode, k):
+    return a[:, k:k + 1] if mode == 'dirs' else a[:k]
+
+
+def prog_close(full, sub, mode, k, tol):
+    """full-run coefficients restricted to k against the restricted run; returns None or a description"""
+    part = cut(numpy.asarray(full), mode, k); sub = numpy.asarray(sub)
+    if part.shape != sub.shape:
+        return 'shape %s in the restricted run, %s expected' % (sub.shape, part.shape)
+    fin = numpy.isfinite(part) & numpy.isfinite(sub)
+    if not fin.all():
+        # non-finite coefficients (a direction at a singular point) must at least be non-finite in both runs
+        if (numpy.isfinite(part) != numpy.isfinite(sub)).any():
+            idx = tuple(int(v) for v in numpy.argwhere(numpy.isfinite(part) != numpy.isfinite(sub))[0])
+            return 'coefficient %s: %r in the full run, %r in the restricted run' % (idx, float(part[idx]), float(sub[idx]))
+    dev = numpy.where(fin, numpy.abs(numpy.where(fin, part, 0) - numpy.where(fin, sub, 0)) / (1 + numpy.abs(numpy.where(fin, part, 0))), 0)
+    if dev.size and dev.max() > tol:
+        idx = tuple(int(v) for v in numpy.unravel_index(int(numpy.argmax(dev)), dev.shape))
+        return 'coefficient %s: %r in the full run, %r in the restricted run' % (idx, float(part[idx]), float(sub[idx]))
+    return None
+
+
+def program_check(ap, prog, x, ybars, mode, k, tol=1e-9):
+    """forward and reverse sweep of a recorded program on the full curve and on its restriction; returns list of (key, why)"""
+    out = []
+    with numpy.errstate(all='ignore'):
+        cg, fx, fys = c05.record(ap, prog, ap.UTPM(x.copy()))
+        cg.pushforward([ap.UTPM(x.copy())])
+        yfull = [numpy.asarray(f.x.data).copy() for f in cg.dependentFunctionList]
+        cg.pullback([ap.UTPM(yb.copy()) for yb in ybars])
+        xbar = numpy.asarray(fx.xbar.data).copy()
+        xs = cut(x, mode, k)
+        ydir = [numpy.asarray(y.data) for y in progs.run(prog, ap.UTPM(xs.copy()), ap)]
+        cg2, fx2, fys2 = c05.record(ap, prog, ap.UTPM(xs.copy()))
+        cg2.pullback([ap.UTPM(cut(yb, mode, k).copy()) for yb in ybars])
+        xbar2 = numpy.asarray(fx2.xbar.data)
+    for i, (yf, ys) in enumerate(zip(yfull, ydir)):
+        why = prog_close(yf, ys, mode, k, tol)
+        if why:
+            out.append(('forward', 'output %d, %s' % (i, why)))
+    why = prog_close(xbar, xbar2, mode, k, tol)
+    if why:
+        out.append(('reverse', 'xbar %s' % why))
+    return out
+
+
+def program_section(rep, ap, rng, mode, tier, what):
+    """generated programs (scalar code, buffers, vector/matrix blocks, inv/solve/det, eigh/qr/cholesky): forward evaluation and the
+    reverse sweep on all directions / all coefficients against the run restricted to one direction / truncated"""
+    n_prog = 50 if tier == 'quick' else 1200
+    for it in range(n_prog):
+        prog = progs.gen_prog(rng, ap, nout=rng.choice([1, 1, 2]))
+        N = prog['N']
+        D = rng.randint(1, 4) if mode == 'dirs' else rng.randint(2, 5)
+        P = rng.randint(2, 3) if mode == 'dirs' else rng.randint(1, 2)
+        x = progs.rand_utpm_data(rng, D, P, N)
+        ybars = [progs.rand_utpm_data(rng, D, P, 1)[:, :, 0] for _ in range(len(prog['ret']))]
+        text = progs.to_text(prog)
+        ks = list(range(P)) if mode == 'dirs' else list(range(1, D))
+        k = rng.choice(ks)
+        rep.count('program:D', D); rep.count('program:P', P); rep.count('program:restriction', k)
+        rep.count('program:factorization', any(i[0] in ('eigh', 'qr', 'cholesky', 'svd') for i in prog['instrs']))
+        rep.case(('program', text, x.tobytes().hex(), k), D >= 2 and len(prog['instrs']) >= 6,
+                 sample=dict(check='program forward+reverse', program=text[:300], D=D, P=P, restriction=k))
+        payload = dict(kind='program', mode=mode, prog=prog, x=x.tolist(), ybar=[y.tolist() for y in ybars], restriction=k)
+        try:
+            bad = program_check(ap, prog, x, ybars, mode, k)
+        except Exception as e:
+            rep.notes.append('program raised %r (decided by C03/C05)' % (e,))
+            continue
+        for side, why in bad:
+            rep.violation('%s:program:%s' % (mode, side), 'generated program, %s sweep on %s: %s' % (side, what, why), dict(payload, why=why, side=side))
+
+
 def replay(pid, mode, path):
     pl = json.load(open(path))
     algopy = lib.import_algopy()
     rep = Report(pid, 'quick', pl.get('seed', 0))
+    if pl.get('kind') == 'program':
+        x = numpy.array(pl['x']); ybars = [numpy.array(y) for y in pl['ybar']]
+        rep.case('replay', True, sample=dict(check='program', restriction=pl['restriction']))
+        try:
+            bad = program_check(algopy, pl['prog'], x, ybars, mode, pl['restriction'])
+        except Exception as e:
+            bad = [('exception', repr(e))]
+        for side, why in bad:
+            rep.violation(pl.get('key', 'replay'), why, dict(pl, why=why, side=side))
+        return rep.finish()
     if pl.get('kind') in ('restriction', 'exception') and 'case' in pl:
         case = pl['case']; k = pl['restriction']
         op = ops.OPS[case['op']]
